@@ -357,7 +357,7 @@ var _ = reflect.DeepEqual
 func init() {
 	register(&Check{
 		ID: "C20", Level: "fault_enumeration", Run: c20Run,
-		Runs:       [2]int{1200, 30000},
+		Runs:       [2]int{1200, 150000},
 		MaxSeconds: [2]int{100, 1500},
 		Rule: "one run = one generated transaction (body larger than the in-memory limit so it spills, urlencoded / multipart with 0-3 files / JSON / raw, keep-files Off|On|RelevantOnly, serial or concurrent audit writer on the simulated disk, optional interruption) enumerated exhaustively: " +
 			"a fault-free execution records the disk operation log and the API call list; then EVERY disk operation of the transaction fails in turn with EVERY applicable kind (create-fail, open-fail, write-error, short-write, read-error, short-read, close-error, remove-error, mkdir-error) and the transaction is abandoned after EVERY call; thorough adds random multi-fault sequences. " +
